@@ -8,6 +8,7 @@ import (
 	"fmt"
 	"strings"
 	"time"
+	"unicode/utf8"
 
 	cedar "github.com/cedar-policy/cedar-go"
 	publicast "github.com/cedar-policy/cedar-go/ast"
@@ -338,6 +339,48 @@ func byteFamily() *core.Family {
 				}
 			}
 			t.Sample(fmt.Sprintf("%q", b))
+		},
+	}
+}
+
+// every Unicode scalar value through the decoders and then through every encoder: the
+// escaping routines are table-driven (printability classes), so a wrong table entry
+// shows only for the code points of one block. 256 scalars per case, 16 per literal, in
+// a string value, an entity id, a record key, a pattern, a policy string literal, an
+// annotation value and an entity map of two entities (whose encoder sorts by UID text).
+func unicodeEncoders() *core.Family {
+	const block = 256
+	n := int64(0x110000 / block)
+	return &core.Family{
+		Name: "unicode-through-encoders",
+		Desc: "every Unicode scalar value U+0000..U+10FFFF (256 per case, 16 per literal) as JSON string / entity id / record key / pattern literal / policy string literal / annotation value: decoded by the JSON decoders, then passed through every encoder and the authorizer",
+		N:    n,
+		Run: func(t *core.T, i int64) {
+			var chunks []string
+			var cur []rune
+			for r := rune(i * block); r < rune((i+1)*block); r++ {
+				if !utf8.ValidRune(r) {
+					continue
+				}
+				cur = append(cur, r)
+				if len(cur) == 16 {
+					chunks = append(chunks, string(cur))
+					cur = nil
+				}
+			}
+			if len(cur) > 0 {
+				chunks = append(chunks, string(cur))
+			}
+			for _, c := range chunks {
+				q, _ := json.Marshal(c)
+				qs := string(q)
+				runEntries(t, jsonValueEntries[:1], []byte(qs))
+				runEntries(t, jsonValueEntries[:1], []byte(`{"k":`+qs+`,`+qs+`:1,"e":{"__entity":{"type":"U","id":`+qs+`}},"s":[`+qs+`,"x"]}`))
+				runEntries(t, jsonValueEntries, []byte(`[{"uid":{"type":"U","id":`+qs+`},"parents":[{"type":"G","id":`+qs+`}],"attrs":{`+qs+`:`+qs+`},"tags":{`+qs+`:1}},{"uid":{"type":"G","id":`+qs+`},"parents":[],"attrs":{},"tags":{}}]`))
+				runEntries(t, jsonValueEntries, []byte(`[{"Literal":`+qs+`},"Wildcard"]`))
+				runEntries(t, jsonPolicyEntries, []byte(`{"effect":"permit","annotations":{"a":`+qs+`},"principal":{"op":"==","entity":{"type":"U","id":`+qs+`}},"action":{"op":"All"},"resource":{"op":"All"},"conditions":[{"kind":"when","body":{"==":{"left":{"Value":`+qs+`},"right":{"like":{"left":{".":{"left":{"Var":"context"},"attr":`+qs+`}},"pattern":[{"Literal":`+qs+`},"Wildcard"]}}}}}]}`))
+			}
+			t.Sample(fmt.Sprintf("U+%04X..U+%04X", i*block, (i+1)*block-1))
 		},
 	}
 }
@@ -684,10 +727,10 @@ func Check() *core.Check {
 			stails := []string{"", " }", " };"}
 			if tier == "thorough" {
 				return []*core.Family{byteFamily(), tokenFamily("policy-token-strings", policyTokens, 4, heads, tails, textPolicyEntries[:2]), tokenFamily("schema-token-strings", schemaTokens, 4, sheads, stails, schemaTextEntries),
-					jsonDeviations(2), textDeviations(), depthSweep(22)}
+					jsonDeviations(2), textDeviations(), unicodeEncoders(), depthSweep(22)}
 			}
 			return []*core.Family{byteFamily(), tokenFamily("policy-token-strings", policyTokens, 3, heads, tails, textPolicyEntries[:2]), tokenFamily("schema-token-strings", schemaTokens, 3, sheads, stails, schemaTextEntries),
-				jsonDeviations(1), textDeviations(), depthSweep(12)}
+				jsonDeviations(1), textDeviations(), unicodeEncoders(), depthSweep(12)}
 		},
 	}
 }
